@@ -40,6 +40,9 @@ def cases(tier, seed):
                 out.append(dict(kind="gen", D=D, N=N, spec=s, keys=list(keys), rs=[seed, D, i, N], cost=N ** D / 200 + 0.5))
     for D in (1, 2, 3):
         out.append(dict(kind="invalid", D=D, rs=[seed, D, 77], cost=0.3))
+    # fixed witnesses of known finding F11 (so a change of its status is noticed on every run): on a coarse grid no discontinuity box contains a grid point
+    out.append(dict(kind="gen", D=3, N=4, spec=dict(name="RandomDiscontinuities", kw=dict(num_discontinuities=3, zero_mean=True, std_one=True)), keys=[5], fixed_key=True, rs=[seed, 3, 0, 4], cost=0.5))
+    out.append(dict(kind="gen", D=3, N=4, spec=dict(name="RandomDiscontinuities", kw=dict(num_discontinuities=3, zero_mean=True, max_one=True)), keys=[5], fixed_key=True, rs=[seed, 3, 0, 4], cost=0.5))
     return out
 
 
@@ -63,7 +66,7 @@ def run_gen(case, bus, ex):
     Cexp = iczoo.n_channels(spec)
     outs = {}
     for ki in case["keys"]:
-        key = jax.random.PRNGKey(1000 * case["rs"][2] + ki)
+        key = jax.random.PRNGKey(ki if case.get("fixed_key") else 1000 * case["rs"][2] + ki)
         u = np.asarray(gen(N, key=key))
         bus.tap("generator.__call__")
         outs[ki] = u
@@ -76,8 +79,9 @@ def run_gen(case, bus, ex):
             twin = dict(name=spec["name"], kw={k: v for k, v in spec["kw"].items() if k not in ("std_one", "max_one")})
             raw = np.asarray(iczoo.build(ex, D, twin)(N, key=key))
             if np.all(np.isfinite(raw)) and float(np.max(raw) - np.min(raw)) <= 1e-14 * (1 + float(np.max(np.abs(raw)))):
-                bus.outside("finite", "degenerate draw: the un-normalised field is constant, unit std / unit max undefined")
-                bus.observe("O6 normalisation of a constant draw gives NaN", dict(generator=spec, D=D, N=N, key=ki))
+                # the property says "finite", so this is reported - as known finding F11 (constant draw normalised to unit std / unit max is 0/0)
+                bus.flag("finite", "non-finite output: unit-std / unit-max normalisation of a constant draw", sig + ("constant draw",),
+                         witness=dict(winfo, degenerate_constant_draw=True, raw_value=float(raw.flat[0])))
                 continue
         bus.judge("finite", 0.0 if np.all(np.isfinite(u)) else 1.0, 0.5, sig, witness=winfo)
         u2 = np.asarray(gen(N, key=key))
@@ -223,6 +227,8 @@ def classify(v):
         if isinstance(inner, list):
             return any(involves(s, nm) for s in inner)
         return False
+    if v["monitor"] == "finite" and w.get("degenerate_constant_draw"):
+        return "F11-normalisation-of-constant-draw-nan"
     if v["monitor"] == "offset" and g.get("name") == "RandomTruncatedFourierSeries" and w.get("ratio") is not None and abs(w["ratio"] * w["N_pow_D"] - 1.0) < 1e-9:
         return "F5-tfs-offset-divided-by-N^D"
     if v["monitor"] in ("shape_channels", "fun_equals_sampled", "multi_channel", "normalisation", "scale_factor") and involves(g, "RandomDiscontinuities") and w.get("D", 1) >= 2:
